@@ -251,4 +251,36 @@ theorem mkPeriod_ok (sm sd em ed ts : Nat) (leap : Bool)
   rfl
 
 
+/-! ### Chunked partition = per-period partition of the period's slice -/
+
+section
+variable {α : Type}
+
+/-- The rows of run period `j` inside the time-ordered stream of `n` keys, when the periods have
+    `cs[0], cs[1], …` time steps. -/
+def periodSlice (data : List α) (cs : List Nat) (n j : Nat) : List α :=
+  (data.drop (cumBefore cs j * n)).take (cs.getD j 0 * n)
+
+/-- For periods of `c₀ … c_m` time steps and `n` keys (stream length `n · Σ cᵢ`), the chunked
+    partition is, period after period, the plain de-interleaving of that period's rows. -/
+theorem partitionChunks_eq_slices (data : List α) (cs : List Nat) (n : Nat) (hn : 0 < n) (hs : 0 < cs.sum)
+    (hl : data.length = n * cs.sum) :
+    partitionChunks data cs =
+      .ok ((List.range cs.length).flatMap fun j => zipStar (chunksOf n (periodSlice data cs n j))) := by
+  have hdiv : data.length / cs.sum = n := by rw [hl, Nat.mul_div_cancel _ hs]
+  simp only [partitionChunks, Nat.ne_of_gt hs, if_false, hdiv, Nat.ne_of_gt hn]
+  congr 1
+  simp only [List.flatMap_def]
+  congr 1
+  apply List.map_congr_left
+  intro j hj
+  have hj' : j < cs.length := List.mem_range.mp hj
+  have hle := cumBefore_add_le cs j hj'
+  have : cumBefore cs j * n + cs.getD j 0 * n ≤ data.length := by
+    rw [hl, ← Nat.add_mul, Nat.mul_comm n]; exact Nat.mul_le_mul_right n hle
+  rw [chunkRows_eq data n _ _ hn this]
+  rfl
+
+end
+
 end Sql
